@@ -11145,12 +11145,19 @@ class Main_Program0(BlockBase):
         table_name = "fparser2:main_program"
         SYMBOL_TABLES.enter_scope(table_name)
 
-        result = BlockBase.match(
-            None,
-            [Specification_Part, Execution_Part, Internal_Subprogram_Part],
-            End_Program_Stmt,
-            reader,
-        )
+        try:
+            result = BlockBase.match(
+                None,
+                [Specification_Part, Execution_Part, Internal_Subprogram_Part],
+                End_Program_Stmt,
+                reader,
+            )
+        except (FortranSyntaxError, InternalSyntaxError, NoMatchError):
+            # The match failed with an error so leave the scope and remove
+            # the associated symbol table before passing the error on.
+            SYMBOL_TABLES.exit_scope()
+            SYMBOL_TABLES.remove(table_name)
+            raise
 
         SYMBOL_TABLES.exit_scope()
         if not result:
